@@ -160,7 +160,7 @@ def Next (c : Cfg β) (s s' : St β) : Prop := ∃ a, Step c a s s'
 /-- reachable from the initial state under any interleaving and any cancellation time -/
 def Reach (c : Cfg β) (s : St β) : Prop := Relation.ReflTransGen (Next c) (init c) s
 
-theorem Reach.init (c : Cfg β) : Reach c (init c) := Relation.ReflTransGen.refl
+theorem Reach.start (c : Cfg β) : Reach c (init c) := Relation.ReflTransGen.refl
 
 theorem Reach.step {c : Cfg β} {a : Actor} {s s' : St β} (h : Reach c s) (hs : Step c a s s') :
     Reach c s' := Relation.ReflTransGen.tail h ⟨a, hs⟩
@@ -192,45 +192,45 @@ theorem sinv_init (c : Cfg β) : SInv c (init c) := by
 theorem sinv_step {c : Cfg β} {a : Actor} {s s' : St β} (h : SInv c s) (hs : Step c a s s') :
     SInv c s' := by
   obtain ⟨h1, h2, h3, h4, h5⟩ := h
-  cases hs
-  case cancel => exact ⟨h1, h2, h3, h4, h5⟩
-  case prodSend g1 g2 g3 =>
+  cases hs with
+  | cancel => exact ⟨h1, h2, h3, h4, h5⟩
+  | prodSend _ g1 g2 g3 =>
     refine ⟨by simp; omega, by simp; omega, h3, ?_, h5⟩
     intro hj; have := h4 hj; simp_all
-  case prodExit g1 g2 => exact ⟨h1, h2, h3, fun _ => rfl, h5⟩
-  case prodCancel g1 g2 _ _ => exact ⟨h1, h2, h3, fun _ => rfl, h5⟩
-  case workRecv r rest p g1 g2 _ =>
+  | prodExit _ g1 g2 => exact ⟨h1, h2, h3, fun _ => rfl, h5⟩
+  | prodCancel _ g1 g2 _ _ => exact ⟨h1, h2, h3, fun _ => rfl, h5⟩
+  | workRecv _ r rest p g1 g2 _ =>
     refine ⟨h1, ?_, ?_, h4, h5⟩
     · simp [g2] at h2 ⊢; omega
     · simp; omega
-  case workExitClosed g1 g2 g3 =>
+  | workExitClosed _ g1 g2 g3 =>
     refine ⟨h1, h2, by simp; omega, h4, ?_⟩
     intro hw hc
     have := h5 hw hc
     simp; omega
-  case workCancelRecv g1 _ _ =>
+  | workCancelRecv _ g1 _ _ =>
     refine ⟨h1, h2, by simp; omega, h4, ?_⟩
     intro hw hc
     have := h5 hw hc
     simp; omega
-  case workSend pre x post g1 g2 g3 =>
+  | workSend _ pre x post g1 g2 g3 =>
     refine ⟨h1, ?_, ?_, h4, ?_⟩
     · simp [g1] at h2 ⊢; omega
     · simp [g1] at h3 ⊢; omega
     · intro _ hc; simp [g2] at hc
-  case workCancelSend pre x post g1 _ _ =>
+  | workCancelSend _ pre x post g1 _ _ =>
     refine ⟨h1, ?_, ?_, h4, ?_⟩
     · simp [g1] at h2 ⊢; omega
     · simp [g1] at h3 ⊢; omega
     · intro hw hc
       have := h5 hw hc
       simp [g1] at h3; omega
-  case closer g1 g2 => exact ⟨h1, h2, h3, h4, fun hw _ => g2 hw⟩
-  case collRecv x rest g0 g1 =>
+  | closer _ g1 g2 => exact ⟨h1, h2, h3, h4, fun hw _ => g2 hw⟩
+  | collRecv _ x rest g0 g1 =>
     refine ⟨h1, ?_, h3, h4, h5⟩
     simp [g1] at h2 ⊢; omega
-  case collClosed g0 g1 g2 => exact ⟨h1, h2, h3, h4, h5⟩
-  case collCancel g0 _ _ => exact ⟨h1, h2, h3, h4, h5⟩
+  | collClosed _ g0 g1 g2 => exact ⟨h1, h2, h3, h4, h5⟩
+  | collCancel _ g0 _ _ => exact ⟨h1, h2, h3, h4, h5⟩
 
 theorem sinv_of_reach {c : Cfg β} {s : St β} (h : Reach c s) : SInv c s :=
   Reach.invariant (SInv c) (sinv_init c) (fun _ _ _ _ hp hs => sinv_step hp hs) s h
